@@ -88,14 +88,32 @@ var subjects = []subject{
 			{"PutSpreadThenOverwrite", func(r *rng.R) {
 				batch := []interface{}{r.Intn(9), r.Intn(9), r.Intn(9)}
 				b.Put(bg(), batch...)
+				// the producer goes on using its slice while the consumer reads what was put, not straight into the next Put
+				// (whose lock would order the accesses)
+				if r.Intn(2) == 0 {
+					time.Sleep(10 * time.Microsecond)
+				}
 				for i := range batch {
 					batch[i] = -1
 				}
+				time.Sleep(10 * time.Microsecond)
 			}},
 			{"GetCommit", func(r *rng.R) {
 				ctx, cc := short()
 				defer cc()
 				if _, err := c.Get(ctx); err == nil {
+					c.Commit()
+				}
+			}},
+			// a consumer that keeps up: reads and commits everything there is, so the buffer is empty again and again
+			{"Drain", func(r *rng.R) {
+				for k := 0; k < 16; k++ {
+					ctx, cc := short()
+					_, err := c.Get(ctx)
+					cc()
+					if err != nil {
+						return
+					}
 					c.Commit()
 				}
 			}},
